@@ -153,6 +153,17 @@ PROPS["C15"] = A("cases are seeded histories over 1-5 ghost members seen by one 
 PROPS["C16"] = A("as C15, with the event pipeline in all four configurations (snapshot on/off x member coalescing on/off), application channel sizes 1/8/64/4096 and a consumer that only drains at seeded points (so the snapshot tee drops when the channel is full); distinct = distinct step-list hash; non-trivial = at least one stimulus",
     "Seeded exploration on the fake clock. The model sequence of each member's status changes is read from Members() after every step; the events the application receives for a member must be an in-order subsequence of it, and when the application channel was never full the last event received equals the latest change. Exact replay.",
     quick=(3000, 45), thorough=(150000, 900))
+# C16 part B (engine B): the property quantifies over the scheduling of the pipeline goroutines.
+# Memberlist notifications, gossiped intents and state-sync merges about the same members arrive
+# from three concurrent tasks, with the reaper and (optionally) the coalescer's goroutines in
+# between, every interleaving decided by the yield scheduler. Oracle: without coalescing the
+# events of a member form a path of the member life cycle; always, the last event tells the
+# application the status the node lists at quiescence (nothing can be dropped: 4096-slot channel).
+PROPS["C16"]["parts"] = [{"wprop": "C16", "build": "plain", "frac": 0.6}, {"wprop": "C16B", "build": "inst", "frac": 0.4}]
+PROPS["C16"]["engine"] = "A replica simulator (part A) + B yield scheduler over the member-event paths and pipeline goroutines (part B)"
+PROPS["C16"]["rule"] += "; part B: 1-3 members, one task of alternating up/down notifications, two tasks of join/leave intents (with prune) and push/pull states about the same members, sleeps across reap ticks and coalescing quanta, under the yield scheduler"
+PROPS["C16"]["quick"].update({"runs": 4000, "budget_s": 75})
+PROPS["C16"]["replay"] = "exact (part B: recorded goroutine schedule)"
 PROPS["C09"] = A("cases are seeded sequences of adversarial network inputs to one real node (keyring on/off, 0-2 known members, one open query): structure-aware queries with empty/nil/undecodable filters, internal key and conflict queries with empty and garbage payloads, every message type with field-level type confusion (msgpack maps with the expected field names and arbitrary values), raw byte noise, responses, relay envelopes, push/pull states with nil maps and nil event slots, probe-ack payloads, member metadata up to 600 bytes through NotifyJoin/NotifyUpdate/NotifyMerge/NotifyAlive; distinct = distinct step-list hash; non-trivial = at least one input",
     "Seeded exploration (corruption as the fault kind). Oracle: the worker process survives (a panic in a goroutine the node spawned kills the worker and is attributed to the run; a panic on the delegate call itself is caught and reported), State() stays alive, and afterwards a fresh user event is delivered, a fresh query is acknowledged and Members() is readable. Each crash replays exactly.",
     quick=(4000, 45), thorough=(300000, 900))
